@@ -11,6 +11,9 @@
      InputsUntouched   every recording is a bystander (storage and content);
      FftLengthRatchet  the settings object may change in its fft_settings slots
                        only (named deviation: the chosen FFT length is stored);
+     CallerListUntouched  the list of recordings handed over still holds the same
+                       recordings in the same order (recordings a time-step policy
+                       sets aside are not taken out of it);
      FreshResult       r shares no storage with anything that existed before;
      Repeatable        if the call repeats an earlier one (same recordings with
                        the same content, same settings object with the same
@@ -31,6 +34,7 @@ Rule(e, pre, post) ==
     CASE e.op = "Setup" -> FrameExcept(pre, post, {}) /\ OnlyNew(pre, post, ToSet(e.new)) /\ Fresh(pre, post, ToSet(e.new))
       [] e.op = "Process" ->
             /\ FrameExcept(pre, post, {Role("s")})                       \* InputsUntouched, ResultsImmutable
+            /\ e.listIntact                                              \* CallerListUntouched
             /\ OnlyNew(pre, post, {Role("r")})
             /\ Fresh(pre, post, {Role("r")})                            \* FreshResult
             /\ \A i \in 1..NSlots(pre, Role("s")) :                      \* FftLengthRatchet only
